@@ -1,4 +1,4 @@
 SPECIFICATION Spec
 CONSTANTS CliDeviations = {}
-INVARIANTS SuccessMeansComplete FailureLeavesNothing WritesWhereAsked InfersOnlyWhenNotGiven
+INVARIANTS SuccessMeansComplete FailureLeavesNothing WritesWhereAsked InfersOnlyWhenNotGiven GivenPackagerWins
 CHECK_DEADLOCK FALSE
